@@ -89,11 +89,9 @@ class TwoEndedLink(link.Link):
         all is well.  Except the access to a private method... but it seems the
         least bad option, IMO.
         """
-        v2 = self.v2
-        self.unlink_from(self.v1)
-        self._vertices = []
-        self.add_vertex(new)
-        self._vertices.append(v2)
+        # both ends must exist (IndexError otherwise, before anything changes)
+        _, v2 = self.v1, self.v2
+        self._replace_ends(new, v2)
 
     @property
     def v2(self) -> Vertex:
@@ -119,10 +117,27 @@ class TwoEndedLink(link.Link):
         For a brief on why this exists, see
         :py:meth:`~edgegraph.structure.TwoEndedLink._set_v1`.
         """
-        v1 = self.v1
-        self.unlink_from(self.v2)
-        self._vertices = [v1]
-        self.add_vertex(new)
+        # both ends must exist (IndexError otherwise, before anything changes)
+        v1, _ = self.v1, self.v2
+        self._replace_ends(v1, new)
+
+    def _replace_ends(self, v1: Vertex, v2: Vertex):
+        """
+        Make ``v1`` and ``v2`` the two ends of this link.
+
+        The vertex side of the association is updated for exactly the vertices
+        that stop being an end (they forget this link) or start being one (they
+        learn of it).  A vertex that remains an end -- the untouched end, or
+        the other end of a self-loop -- keeps its association as it is.
+        """
+        previous = self._vertices
+        self._vertices = [v1, v2]
+        for vert in previous:
+            if (vert is not None) and (vert not in self._vertices):
+                vert.remove_from_link(self)
+        for vert in self._vertices:
+            if (vert is not None) and (self not in vert.links):
+                vert.add_to_link(self)
 
     def other(self, end: Vertex) -> Vertex | None:
         """
